@@ -87,6 +87,12 @@ template <typename ITV> static void do_propagate(Box<ITV>& x, const Constraint_S
   Constraint_System::const_iterator i = cs.begin(); unsigned k = 0; for (Constraint_System::const_iterator j = cs.begin(); j != cs.end(); ++j) ++k;
   if (k == 1) x.propagate_constraint(*i); else x.propagate_constraints(cs);
 }
+// integer_upper_bound_assign_if_exact exists (compile-time check) for integer carriers of BD shapes / octagons only
+template <bool IS_INT> struct IntUB { template <typename D> static bool go(D&, const D&) { throw std::runtime_error("case: integer_upper_bound_assign_if_exact on a non-integer carrier"); } };
+template <> struct IntUB<true> { template <typename D> static bool go(D& x, const D& y) { return x.integer_upper_bound_assign_if_exact(y); } };
+template <typename T> static bool int_ub(BD_Shape<T>& x, const BD_Shape<T>& y) { return IntUB<std::numeric_limits<T>::is_integer>::go(x, y); }
+template <typename T> static bool int_ub(Octagonal_Shape<T>& x, const Octagonal_Shape<T>& y) { return IntUB<std::numeric_limits<T>::is_integer>::go(x, y); }
+template <typename ITV> static bool int_ub(Box<ITV>&, const Box<ITV>&) { throw std::runtime_error("case: integer_upper_bound_assign_if_exact on a box"); }
 template <typename T> static void force_reduction(BD_Shape<T>& x) { x.shortest_path_reduction_assign(); }
 template <typename T> static void force_reduction(Octagonal_Shape<T>& x) { x.strong_reduction_assign(); }
 template <typename ITV> static void force_reduction(Box<ITV>& x) { (void) x.is_empty(); }
@@ -243,6 +249,12 @@ template <typename D> struct DomObj : Obj {
     else if (op == "fold_space_dimensions") { long k = tk.nextl(); Variables_Set vs; for (long i = 0; i < k; ++i) vs.insert(Variable(tk.nextl())); unsigned d = tk.nextl(); x.fold_space_dimensions(vs, Variable(d)); }
     else if (op == "map_space_dimensions") { PFunc f; long k = tk.nextl(); for (long i = 0; i < k; ++i) { long j = tk.nextl(); f.m.push_back(j); if (j >= 0 && (unsigned) j > f.maxc) f.maxc = j; } x.map_space_dimensions(f); }
     else if (op == "assign") x = arg(tk);
+    else if (op == "swap" || op == "swap_std") {   // the state of the argument is printed too (see main)
+      Obj* o = get(tk.nextl()); DomObj<D>* d = dynamic_cast<DomObj<D>*>(o);
+      if (!d) throw std::runtime_error("case: argument of a different kind");
+      if (op == "swap") x.m_swap(d->x); else { using std::swap; swap(x, d->x); }
+    }
+    else if (op == "integer_upper_bound_assign_if_exact") { bool b = int_ub(x, arg(tk)); std::cout << "ret " << (b ? 1 : 0) << "\n"; }
     else if (op == "closure") force_closure(x);                 // shortest_path_closure_assign / strong_closure_assign
     else if (op == "reduction") force_reduction(x);             // shortest_path_reduction_assign / strong_reduction_assign
     else if (op == "incremental_closure") {
@@ -402,6 +414,7 @@ int main(int argc, char** argv) {
         try { o->op(tk); std::cout << "res ok\n"; }
         catch (const std::exception& e) { if (is_case_err(e)) throw; std::cout << "res exn " << exn_class(e) << "\n"; }
         o->print_state(id);
+        if (tk.t.size() > 3 && (tk.t[2] == "swap" || tk.t[2] == "swap_std")) { int id2 = std::atoi(tk.t[3].c_str()); get(id2)->print_state(id2); }
       }
       else if (cmd == "stall") { for (Pool::iterator i = pool.begin(); i != pool.end(); ++i) i->second->print_state(i->first); std::cout << "endst\n"; }
       else if (cmd == "qry") {
